@@ -755,6 +755,11 @@ def one_dataset(ctx: Ctx, setup_ops, level: int, meta: dict, tmp: str, tag: str,
             ctx.disagree("instance of theorem read_write: Writable, but model rt != model restrict", case, model, restr)
         if w == "F":
             ctx.count("Writable=F & model " + ("ok" if model.startswith("ok:") else model))
+            if model.startswith("ok:") and model != restr:
+                # outside the hypothesis (one array held by several fields): the conclusion of read_write is not proved
+                # there, it is evaluated: the rendering shows which fields hold one object
+                ctx.disagree("conclusion of read_write on a dataset with field-level sharing: model rt != model restrict",
+                             case, model, restr)
     elif info != "?":
         ctx.disagree("c10 info", case, info, "W:…")
     for t in topology(ds, level):
@@ -916,6 +921,68 @@ def codec_case(ctx: Ctx, m):
         ctx.violate("codec:" + kind, f"decode_h5attr(encode_h5attr({m!r})) = {out!r}", case)
 
 
+# ---------------------------------------------------------------------------------------------
+# worker processes: the cases are generated in the parent (from ctx.rng, so that a run is a function of the seed alone),
+# dealt out round-robin to forked workers, each with its own model driver and its own temporary directory
+
+
+def _run_chunk(kind: str, tier: str, seed: int, chunk: list) -> dict:
+    sub = Ctx("C10", tier, seed)
+    tmp = tempfile.mkdtemp(prefix="verif-c10-w-")
+    try:
+        for item in chunk:
+            if kind == "codec":
+                codec_case(sub, item)
+            else:
+                one_dataset(sub, *item[:3], tmp, "random", *item[3:])
+    finally:
+        shutil.rmtree(tmp, ignore_errors=True)
+        try:
+            if sub._driver is not None:
+                sub._driver.p.stdin.close()
+                sub._driver.p.wait(timeout=10)
+        except Exception:
+            pass
+    return {"hist": sub.hist, "nontrivial": sub.nontrivial, "evaluations": sub.evaluations, "traces": sub.traces,
+            "violations": [(v.key, v.what, v.replay) for v in sub.violations], "corr_broken": sub.corr_broken,
+            "samples": sub.samples[:2]}
+
+
+def _merge(ctx: Ctx, r: dict):
+    for k, v in r["hist"].items():
+        ctx.hist[k] = ctx.hist.get(k, 0) + v
+    ctx.nontrivial |= r["nontrivial"]
+    ctx.evaluations += r["evaluations"]
+    ctx.traces += r["traces"]
+    for key, what, rep in r["violations"]:
+        if key not in ctx._vkeys and len(ctx.violations) < 200:
+            ctx._vkeys.add(key)
+            ctx.violations.append(common.Violation(key, what, rep))
+    for d in r["corr_broken"]:
+        if len(ctx.corr_broken) < 50:
+            ctx.corr_broken.append(d)
+    for c in r["samples"]:
+        if len(ctx.samples) < 6:
+            ctx.samples.append(c)
+
+
+def run_cases(ctx: Ctx, kind: str, items: list):
+    """run the generated cases, on worker processes when there are enough of them (VERIF_C10_WORKERS=1: in this process)"""
+    import concurrent.futures
+    import multiprocessing
+
+    nw = int(os.environ.get("VERIF_C10_WORKERS", "0")) or min(8 if ctx.thorough else 4, os.cpu_count() or 1)
+    if nw <= 1 or len(items) < 200:
+        _merge(ctx, _run_chunk(kind, ctx.tier, ctx.seed, items))
+        return
+    chunks = [items[i::nw] for i in range(nw)]
+    with concurrent.futures.ProcessPoolExecutor(max_workers=nw, mp_context=multiprocessing.get_context("fork")) as ex:
+        futs = [ex.submit(_run_chunk, kind, ctx.tier, ctx.seed, c) for c in chunks]
+        for f in futs:
+            _merge(ctx, f.result())
+    ctx.extra["workers"] = nw
+
+
 def run(ctx: Ctx):
     ctx.proof = common.prove("C10")
     _register_time()
@@ -955,9 +1022,9 @@ def run(ctx: Ctx):
         for t in TRICKY:
             codec_case(ctx, t)
             codec_case(ctx, [t, {"k": t}])
-        for _ in range(ctx.budget(3000, 60000)):
-            codec_case(ctx, gen_meta(rng))
-        for _ in range(ctx.budget(1300, 13000)):
+        run_cases(ctx, "codec", [gen_meta(rng) for _ in range(ctx.budget(5000, 150000))])
+        items = []
+        for _ in range(ctx.budget(3000, 40000)):
             meta = {rng.choice(["k", "key ", "nan", "a.b", "K"]) + str(i): gen_meta(rng) for i in range(rng.choice([0, 1, 2, 4]))}
             meta = {k: v for k, v in meta.items() if v is not None}
             if rng.random() < 0.03:      # a bare None: Dataset.write must refuse it (TypeError), as the model's writeDSM does
@@ -974,7 +1041,8 @@ def run(ctx: Ctx):
             for o in ops:
                 if o["op"] == "add" and o["kind"] in ("position", "posvel") and rng.random() < 0.25:
                     tattr[o["path"]] = ["f", rng.choice(times)] if times and rng.random() < 0.65 else ["a", rng.choice([0, 0, 1])]
-            one_dataset(ctx, ops, rng.choice([1, 2, 3]), meta, tmp, "random", mult, tattr, dvars)
+            items.append((ops, rng.choice([1, 2, 3]), meta, mult, tattr, dvars))
+        run_cases(ctx, "dataset", items)
     finally:
         shutil.rmtree(tmp, ignore_errors=True)
 
